@@ -80,7 +80,7 @@ def judge_prefix_case(prop, typ, case, marks, recs, oracle, res, variant='releas
             continue
         mo = oracle.at(k)
         if mc.judge(prop, typ, oracle.xs[:k], r.kv, res, case, variant, only=only, mo=mo,
-                    context='after %d adds' % k):
+                    context='after %d adds' % k, add_only=True):
             nontriv += 1
             res.count('nontrivial_states')
             res.count('n_decade_%s' % decade(k))
